@@ -21,7 +21,7 @@ CLAIMS = {
          'callee allow-list + pairing/path rules over clang AST/CFG'),
  'C05': ('A1 lockset/thread-role race freedom incl. cond-var flag discipline (static form of "cleanup terminates"), A3 take→mark-running atomicity, '
          'completion protocol (body on worker role, main_cb only via runInLoop after the body), cancel/cleanup shapes, join protocol, priority/FIFO shape, '
-         'worker bound, no lock held across task bodies/join, main_cb only into Loop::runInLoop and no loop-thread-only entry in the worker role, retire decision atomic with leaving threads_cabinet', '§4 C05, §10.3 D24', 'lockset + atomic-region + CFG path rules over clang AST/CFG'),
+         'worker bound, no lock held across task bodies/join, main_cb only into Loop::runInLoop and no loop-thread-only entry in the worker role, retire decision atomic with leaving threads_cabinet, cleanup leaves the pool not-ready on every path after raising the stop flag', '§4 C05, §10.3 D24', 'lockset + atomic-region + CFG path rules over clang AST/CFG'),
  'C09': ('A1 lock discipline of logging globals and sink level tables, dispatch only under the global lock (call-graph who-may-call), atomic two-part '
          'append, filter-before-output, truncation marking agreement over sinks, back-end re-framing guards, roll-over/disable ordering, no re-logging from sinks, record completeness (every formatter prints every field; thread id and time obtained in the call itself), level clamped into the level tables (interval abstract interpretation)', '§4 C09',
          'lockset + who-may-call + CFG path rules over clang AST/CFG'),
@@ -41,10 +41,10 @@ CLAIMS.update({
          'completion only when drained, receive-side commit/spill shape, destruction only through deferred tasks at the in-callback sites; plus the util::Buffer window arithmetic (C07 rules run as C06.B1-B4, the send/receive queues are Buffers)', '§4 C06, §10.6',
          'typestate-style site rules + ownership (deferred delete) rules over clang AST/CFG'),
  'C12': ('A8 no exception escapes the receive path (call-graph scan with try map, presence proofs by reaching definitions), fail verdicts only on a complete '
-         'line and cursor-update shapes, no dispatch after a close-marked request, single commit per request by construction, in-order flush shape, boundary agreement of every comparison with close_index, no read-side shutdown while responses are owed (teardown chain re-derived each run), no unbounded stack allocation on the receive path, per-request parser state re-initialised at each request, any transport shutdown only in the send-complete callback', '§4 C12',
+         'line and cursor-update shapes, no dispatch after a close-marked request, single commit per request by construction, in-order flush shape, boundary agreement of every comparison with close_index, no read-side shutdown while responses are owed (teardown chain re-derived each run), no unbounded stack allocation on the receive path, per-request parser state re-initialised at each request, any transport shutdown only in the send-complete callback, receive threshold of the resumable parser folds to 0 or 1, reserve/resize with an input-derived count counted as a thrower', '§4 C12',
          'exception-escape analysis + reaching definitions + CFG path rules over clang AST/CFG'),
  'C13': ('A8 no exception escapes the input path (telnet, raw TCP, terminal), no access to an empty history, deferred tasks capture tokens not pooled pointers, '
-         'cursor-update guards, prompt/history-cap shape, telnet framing length tests, bounded history recursion, no unbounded stack allocation (VLA/alloca) on the input path; range/presence proofs require the container to be unchanged between proof and use; key decoding transition table read off the scanner vs the xterm/VT220 reference encodings, key-result to handler dispatch table, no implicit narrowing of strtol-family results (A9g)', '§4 C13, §10.7',
+         'cursor-update guards, prompt/history-cap shape, telnet framing length tests, bounded history recursion, no unbounded stack allocation (VLA/alloca) on the input path; range/presence proofs require the container to be unchanged between proof and use; key decoding transition table read off the scanner vs the xterm/VT220 reference encodings, key-result to handler dispatch table, no implicit narrowing of strtol-family results (A9g), receive thresholds of the three front ends fold to 0 or 1, telnet text marked read is delivered on every path to every exit, key-scanner typestate across strings', '§4 C13, §10.7',
          'exception-escape analysis + ownership/deferred-capture + CFG path rules over clang AST/CFG'),
  'C14': ('A8 framing/dispatch never throw (parse only inside CatchThrow, typed json access under type tests), no narrow length sum, fetchNoCopy result proven '
          'non-null or tested, resumable-framing return discipline, complete-then-erase with sibling agreement, no container handle live across the user callback, '
@@ -67,9 +67,9 @@ CLAIMS.update({
          'post shapes, scheduler cleanup/switch/schedule shapes, every routine-destroying site resumes the joiner, cancel exit withdraws the waiter token and passes on a wake-up addressed to it, success exit only through a re-test of the resource after wait(), a "post already pending" flag believed only where the posted function clears it', '§4 C18', 'CFG path rules over clang AST/CFG (templates via explicit instantiation TU)'),
  'C19': ('constant tables equal tables generated from the standards\' formulae (Base64, CRC-16/32, AES S-box/inverse/Rcon, MD5 constants/shifts/order/state/padding, '
          'scalable-integer ranges), every constant-table subscript in range by interval evaluation, serializer/deserializer width and byte-order agreement, '
-         'capacity test before stores, digit validation, no carry lost in the 16-bit one\'s-complement checksum (interval abstract interpretation of the accumulator), AES round/permutation/matrix structure vs FIPS-197 (index expressions evaluated over finite domains), MD5::update width agreement (carry test and block loop) and single input cursor, no wrapped remaining-length re-read in the CRC/checksum loops, residue-class walk of the Base64 decoding loop (every store offset below the capacity DecodeLength guarantees for that residue)', '§4 C19, §10.3 D30, §10.7', 'constant-table conformance + interval evaluation/abstract interpretation + sibling agreement over clang AST/CFG'),
+         'capacity test before stores, digit validation, no carry lost in the 16-bit one\'s-complement checksum (interval abstract interpretation of the accumulator), AES round/permutation/matrix structure vs FIPS-197 (index expressions evaluated over finite domains), MD5::update width agreement (carry test and block loop) and single input cursor, no wrapped remaining-length re-read in the CRC/checksum loops, residue-class walk of the Base64 decoding loop (every store offset below the capacity DecodeLength guarantees for that residue), linear bound proofs 0 <= index <= size-1 for every indexed access through a (ptr,size) buffer, state-machine walk of the Base64 encoder against the folded EncodeLength, cached-pointer freshness in the Serializer, no lenient library number parser in a digit decoder', '§4 C19, §10.3 D30, §10.7', 'constant-table conformance + interval evaluation/abstract interpretation + sibling agreement over clang AST/CFG'),
  'C20': ('seconds->milliseconds conversion wide enough for the operand\'s type range, re-arm before callback, next instant depends on max(now, previous target), '
-         'time-zone symmetry, running<=>armed, out-parameter/strictly-after discipline of every calculateNextLocalTimeSec, day scans offer a full period of strictly-future days (interval abstract interpretation of the loop counter), rounding direction of the wait, no live iteration over the calendar\'s watcher list, the search floor is a fired instant (never an armed one), sentinel discipline for cron_next', '§4 C20, §10.3 D31/D32',
+         'time-zone symmetry, running<=>armed, out-parameter/strictly-after discipline of every calculateNextLocalTimeSec, day scans offer a full period of strictly-future days (interval abstract interpretation of the loop counter), rounding direction of the wait, no live iteration over the calendar\'s watcher list, the search floor is a fired instant (never an armed one), sentinel discipline for cron_next, who-may-arm (nothing arms an alarm that is not running), zone selection by a flag and not by the offset value', '§4 C20, §10.3 D31/D32',
          'interval evaluation/abstract interpretation + data-dependence/path rules over clang AST/CFG'),
 })
 CLAIMS['C07'] = ('index arithmetic of the byte buffer decided by linear constant propagation (every field an affine form over its entry value, relational '
